@@ -63,6 +63,51 @@ func (H) Generate(r *simrt.Rand, tier string) any {
 		n = 300 + r.Intn(1500)
 		bias = 60 + r.Intn(25)
 	}
+	if r.Intn(8) == 0 {
+		// phases: long fills and long drains (to empty, to nearly empty, by a block
+		// size or one more or less) with a peek now and then - block-structured and
+		// ring-shaped representations change state at such boundaries, and a mixed
+		// history of single steps hardly ever lines up with them
+		var sb []byte
+		depth := 0
+		for len(sb) < 600 {
+			k := []int{1, 2, 7, 8, 9, 15, 16, 17, 31, 32, 33, 63, 64, 65, 127, 128, 129}[r.Intn(17)]
+			if r.Intn(3) == 0 {
+				k = 1 + r.Intn(70)
+			}
+			push := r.Intn(2) == 0 || depth == 0
+			if !push {
+				switch r.Intn(4) {
+				case 0:
+					k = depth // drain completely
+				case 1:
+					k = depth - 1 // leave one inside
+				}
+				if k > depth+1 {
+					k = depth + 1 // one pop more than there is: the empty case
+				}
+			}
+			for i := 0; i < k; i++ {
+				if push {
+					sb = append(sb, 'P')
+					depth++
+				} else {
+					sb = append(sb, 'O')
+					if depth > 0 {
+						depth--
+					}
+				}
+			}
+			if r.Intn(2) == 0 {
+				sb = append(sb, "KL"[r.Intn(2)])
+			}
+			if r.Intn(6) == 0 {
+				break
+			}
+		}
+		s.Ops = string(sb)
+		return s
+	}
 	b := make([]byte, n)
 	for i := range b {
 		x := r.Intn(100)
